@@ -41,7 +41,7 @@ func TestMain(m *testing.M) {
 			"evaluations = cut points decoded; non-trivial = cut strictly inside the body (after the header); distinct = (file hash, cut).",
 		Assumptions: []string{
 			"a cut inside a number of an ascii body leaves a syntactically complete, different file and is outside the quantifier",
-			"termination is decided as 'returns within 130 s' for inputs < 8 KB (normal decode: microseconds; a first 10 s limit only raises a suspicion, because a loaded machine can starve a goroutine that long)",
+			"termination is decided as 'returns within 60 s' for inputs < 8 KB (normal decode: microseconds; a first 10 s limit only raises a suspicion, because a loaded machine can starve a goroutine that long)",
 			"files are small (1..6 elements): cut positions are enumerated exhaustively per file, files are sampled",
 		},
 	})
@@ -278,13 +278,13 @@ func decodeWatched(dec func([]byte) (*modeling.Mesh, error), b []byte) (outcome,
 	case <-time.After(10 * time.Second):
 	}
 	// Not back after 10 s (normal cost: microseconds). On a heavily loaded machine a goroutine can be
-	// starved that long, so this is only a suspicion: give the SAME call two more minutes before
+	// starved that long, so this is only a suspicion: give the SAME call fifty more seconds before
 	// calling it a hang (a decoder that really loops never returns, whatever the load).
 	select {
 	case o := <-done:
 		slowDecodes.Add(1)
 		return o, true
-	case <-time.After(120 * time.Second):
+	case <-time.After(50 * time.Second):
 		return outcome{}, false
 	}
 }
